@@ -98,6 +98,7 @@ func runOne(t *testing.T, def *CheckDef, tier string, seed int64, tape *Tape, ke
 	}()
 	curRun.Store(r)
 	defer curRun.Store(nil)
+	installMutexSeam(r)
 	// The collector is off while a bubble runs: a GC cycle makes the running
 	// goroutine yield at its next function call, which reorders goroutines
 	// that are runnable at the same instant and would break replay.
